@@ -226,6 +226,15 @@ func (f *Func) callGraph(args *argBuilder) (
 					Subtype: v.Subtype,
 					Value:   v.Value,
 				}
+
+				// If the caller already supplied a typed value for exactly
+				// this argument, there is nothing to ask for.
+				if given, ok := g.Vertex(graph.VertexID(&typedOutputVertex{
+					Type:    v.Type,
+					Subtype: v.Subtype,
+				})).(*typedOutputVertex); ok && given.Value.IsValid() {
+					continue
+				}
 			}
 
 			// For redefining, the caller can setup filters to determine
@@ -367,10 +376,11 @@ func (f *Func) reachTarget(
 			}
 		}
 
-		// If we're skipping because we have this value already, then
-		// note that we're using this input in the input set.
+		// If we're skipping because we have this value already, there is
+		// nothing to reach. An argument that was picked as an input of the
+		// call was recorded in the input set when it was picked; anything
+		// else that has a value by now is an intermediate, not an input.
 		if skip {
-			state.InputSet[graph.VertexID(out)] = out
 			continue
 		}
 
